@@ -343,7 +343,7 @@ static std::vector<ErrorMessage> getUnmatchedSuppressions(const std::list<Suppre
     return errors;
 }
 
-bool CppCheckExecutor::reportUnmatchedSuppressions(const Settings &settings, const SuppressionList& suppressions, const std::list<FileWithDetails> &files, const std::list<FileSettings>& fileSettings, ErrorLogger& errorLogger) {
+bool CppCheckExecutor::reportUnmatchedSuppressions(const Settings &settings, const SuppressionList& suppressions, const std::list<FileWithDetails> &files, const std::list<FileSettings>& fileSettings, ErrorLogger& errorLogger, SuppressionList* nofail) {
     // the two inputs may only be used exclusively
     assert(!(!files.empty() && !fileSettings.empty()));
 
@@ -380,11 +380,15 @@ bool CppCheckExecutor::reportUnmatchedSuppressions(const Settings &settings, con
         // re-ordering the code is also not an option because the unmatched suppression reporting needs to be run after all other checks.
         analyzerInfo.reopen(settings.buildDir, sourcefile, /*cfgname*/ "", fsFileId);
 
+        // findings matched by an exit code suppression are reported but do not affect the exit code
+        bool fail = false;
         for (const auto& errmsg : errors) {
             analyzerInfo.reportErr(errmsg);
             errorLogger.reportErr(errmsg);
+            if (!nofail || !nofail->isSuppressed(SuppressionList::ErrorMessage::fromErrorMessage(errmsg, {})))
+                fail = true;
         }
-        return true;
+        return fail;
     };
 
     bool err = false;
@@ -488,7 +492,7 @@ int CppCheckExecutor::check_internal(const Settings& settings, Suppressions& sup
 #endif
 
     if ((settings.severity.isEnabled(Severity::information) || settings.checkConfiguration) && !supprs.nomsg.getSuppressions().empty()) {
-        const bool err = reportUnmatchedSuppressions(settings, supprs.nomsg, mFiles, mFileSettings, stdLogger);
+        const bool err = reportUnmatchedSuppressions(settings, supprs.nomsg, mFiles, mFileSettings, stdLogger, &supprs.nofail);
         if (err && returnValue == 0)
             returnValue = settings.exitCode;
     }
